@@ -318,6 +318,90 @@ int cmd_nearmate_pool(const Args& a)
             }
         }
     }
+    // ---- dpush: the side to move is in check by a slider and a DOUBLE pawn push is among its (few) evasions; emitted with the
+    //      predecessors in which the attacker is about to give that check (a generator that forgets such evasions sees a mate)
+    long ndp = 0;
+    {
+        const long want = a.i("dpush", 0);
+        long t2 = 0;
+        while (ndp < want && t2 < max_tries)
+        {
+            t2++;
+            char b[64];
+            memset(b, 0, sizeof b);
+            bool def_white = rng() % 2;
+            auto D = [&](char c) { return def_white ? c : (char)tolower(c); };
+            auto A = [&](char c) { return def_white ? (char)tolower(c) : c; };
+            int home = def_white ? 1 : 6, dir = def_white ? 1 : -1;
+            int pf = int(rng() % 8);
+            int block = (home + 2 * dir) * 8 + pf;                  // the square the double push reaches
+            b[home * 8 + pf] = D('P');
+            // the defender's king on a line through `block`, the attacking slider further along the same line
+            static const int dd[8][2] = {{1, 0}, {-1, 0}, {0, 1}, {0, -1}, {1, 1}, {1, -1}, {-1, 1}, {-1, -1}};
+            int d = int(rng() % 8);
+            int kd = 1 + int(rng() % 3), sd = 1 + int(rng() % 3);
+            int kf = pf + dd[d][0] * kd, kr = (home + 2 * dir) + dd[d][1] * kd;
+            int sf = pf - dd[d][0] * sd, sr = (home + 2 * dir) - dd[d][1] * sd;
+            if (kf < 0 || kf > 7 || kr < 0 || kr > 7 || sf < 0 || sf > 7 || sr < 0 || sr > 7) continue;
+            int ks = kr * 8 + kf, ss = sr * 8 + sf;
+            if (b[ks] || b[ss] || ks == (home + dir) * 8 + pf || ss == (home + dir) * 8 + pf) continue;
+            b[ks] = D('K');
+            b[ss] = A(dd[d][0] && dd[d][1] ? (rng() % 2 ? 'B' : 'Q') : (rng() % 2 ? 'R' : 'Q'));
+            auto place = [&](char ch) {
+                for (int t = 0; t < 100; ++t)
+                {
+                    int s0 = int(rng() % 64);
+                    if (b[s0] || s0 == block || s0 == (home + dir) * 8 + pf) continue;
+                    if ((ch == 'P' || ch == 'p') && (s0 < 8 || s0 >= 56)) continue;
+                    b[s0] = ch;
+                    return true;
+                }
+                return false;
+            };
+            bool ok = place(A('K'));
+            static const char* extraA[] = {"R", "Q", "RN", "B", "QR", "N", "RB"};
+            static const char* extraD[] = {"", "P", "PP", "N", "PB", "R"};
+            for (const char* q = extraA[rng() % 7]; *q && ok; ++q) ok = place(A(*q));
+            for (const char* q = extraD[rng() % 6]; *q && ok; ++q) ok = place(D(*q));
+            if (!ok) continue;
+            std::string f;
+            for (int r = 7; r >= 0; --r)
+            {
+                int e = 0;
+                for (int k = 0; k < 8; ++k)
+                {
+                    char ch = b[r * 8 + k];
+                    if (!ch) e++;
+                    else { if (e) f += char('0' + e); e = 0; f += ch; }
+                }
+                if (e) f += char('0' + e);
+                if (r) f += '/';
+            }
+            f += def_white ? " w - - 0 1" : " b - - 0 1";
+            Position p(f);
+            if (distance(p.piece_position(W_KING), p.piece_position(B_KING)) <= 1) continue;
+            if (p.is_in_check(!p.color()) || !p.is_in_check(p.color())) continue;
+            MoveVec mv;
+            mv.gen(p);
+            bool has_dp = false;
+            for (int i = 0; i < mv.n; ++i)
+                has_dp = has_dp || (castling(mv.list[i]) == NO_CASTLING && make_piece_kind(p.piece_at(from(mv.list[i]))) == PAWN && std::abs(int(to(mv.list[i])) - int(from(mv.list[i]))) == 16);
+            // (has_dp is computed by the generator under test: a generator that forgets the move drops the position here, so the
+            //  geometric construction above is the real selector and this test is only applied when it agrees)
+            if (mv.n > 3) continue;
+            (void)has_dp;
+            ndp++;
+            emit(o, p, "nm-dpush", &n, false);
+            int k1 = 0;
+            for (auto& f1 : predecessors(p, rng, 6))
+            {
+                Position p1(f1);
+                if (p1.is_in_check(p1.color())) continue;
+                emit(o, p1, "nm-dpush-1", &n, false);
+                if (++k1 >= 3) break;
+            }
+        }
+    }
     // ---- minimal mates: a cornered king hemmed in by one piece of its own, mated in one by king + one minor piece (or minor + pawn);
     //      mates that exist only because the material IS sufficient (opposite bishops, knight v knight, ...)
     long nmin = 0;
